@@ -40,7 +40,9 @@ RULE = {
         "after a request has been served on the siblings' data; advertised bounds are recomputed from the latest received "
         "data and the whole probe round is repeated. Finally the status tracker declares a generated subset of the batteries "
         "not working (their data stay complete), advertised bounds are computed for the working set and the probe round is "
-        "repeated with requests that still name every battery. Non-trivial = >=2 groups with different exclusion bounds or a shared inverter/battery; "
+        "repeated with requests that still name every battery. Last, a send-on-update aggregator (what the pool streams) is "
+        "attached, the upper bounds of group 0 drift down by 5e-7 (relative) per message for 25 messages, and a power "
+        "1e-9 inside the inclusion bound streamed last must not be rejected. Non-trivial = >=2 groups with different exclusion bounds or a shared inverter/battery; "
         "distinct by SHA-1 of the canonical JSON case."
     )
 }
@@ -52,6 +54,7 @@ ASSUMPTIONS = [
 ]
 MIN_LABELS = {"C17": {"shared": 0.3, "multi_group_diff_excl": 0.2, "probe_on_incl_bound": 0.5, "data_update_phase": 0.5,
                       "update_with_older_timestamp_than_sibling": 0.1, "status_phase_some_not_working": 0.5,
+                      "streamed_bounds_after_slow_drift": 0.3,
                       "battery_set_partially_working": 0.1}}
 
 
@@ -110,6 +113,9 @@ def run_case(case: Any, pid: str) -> Verdict:
             if v.violations:
                 return
             await status_phase(mw, case_now)
+            if v.violations:
+                return
+            await drift_phase(mw, case_now)
 
     async def update_phase(mw: Any) -> dict[str, Any]:
         """Second phase: updated bounds for one battery, older / equal / newer timestamp.  Returns the data now in force."""
@@ -160,6 +166,55 @@ def run_case(case: Any, pid: str) -> Verdict:
         if any(0 < len(set(bids) & down) < len(bids) for bids, _ in mw.ids):
             v.labels.add("battery_set_partially_working")
         await probe_round(mw, case_now, f"with batteries {sorted(down)} declared not working", set(all_bats) - down)
+
+    async def drift_phase(mw: Any, case_now: dict[str, Any]) -> None:
+        """Fourth phase: the bounds the pool *streams* (send-on-update pipeline) after a slow drift of one group's upper bounds."""
+        from frequenz.sdk.timeseries.battery_pool._methods import SendOnUpdate  # pylint: disable=import-outside-toplevel
+
+        tracker = mw.manager._component_pool_status_tracker  # pylint: disable=protected-access
+        tracker.not_working = set()
+        groups_d = [dict(g, bats=[dict(b) for b in g["bats"]], invs=[dict(i) for i in g["invs"]]) for g in case_now["groups"]]
+        gb0 = batsys.group_bounds(groups_d[0])
+        if gb0["incl_up"] <= 0 or gb0["min_power_up"] >= gb0["incl_up"] * (1.0 - 1e-3):
+            return
+        all_bats = {b for bids, _ in mw.ids for b in bids}
+        agg = SendOnUpdate(working_batteries=set(all_bats), metric_calculator=PowerBoundsCalculator(all_bats),
+                           min_update_interval=timedelta(seconds=0.05))
+        rx = agg.new_receiver(limit=10000)
+        await world.settle(2)
+        await mw.feed_groups(groups_d)
+        await asyncio.sleep(2.6)   # the aggregator emits nothing before its 2 s start-up wait
+        bids0, iids0 = mw.ids[0]
+        for _ in range(25):
+            for comp in groups_d[0]["bats"] + groups_d[0]["invs"]:
+                comp["iu"] = comp["iu"] * (1.0 - 5e-7)
+            now = world.now()
+            for cid, b in zip(bids0, groups_d[0]["bats"]):
+                await mw.api.send(cid, batsys.make_battery(cid, b, now))
+            for cid, i in zip(iids0, groups_d[0]["invs"]):
+                await mw.api.send(cid, batsys.make_inverter(cid, i, now))
+            await asyncio.sleep(0.06)
+        # keep everything fresh, then read what the pool streams last
+        await mw.feed_groups(groups_d)
+        await asyncio.sleep(0.3)
+        latest = None
+        while True:
+            try:
+                latest = await asyncio.wait_for(rx.receive(), timeout=1e-6)
+            except asyncio.TimeoutError:
+                break
+        await agg.stop()
+        if latest is None or latest.inclusion_bounds is None:
+            return
+        v.labels.add("streamed_bounds_after_slow_drift")
+        up = latest.inclusion_bounds.upper.as_watts()
+        probe = up * (1.0 - 1e-9)
+        if probe <= 0 or (latest.exclusion_bounds is not None and probe < latest.exclusion_bounds.upper.as_watts()):
+            return
+        res = await mw.request(probe, adjust_power=False)
+        if isinstance(res, OutOfBounds):
+            v.fail(f"[after a slow drift of group 0's upper bounds] {probe} W is inside the inclusion bounds the pool streams "
+                   f"last ({latest.inclusion_bounds}) but was answered OutOfBounds {res.bounds}")
 
     async def probe_round(mw: Any, case_now: dict[str, Any], phase: str, working: set[int] | None = None) -> None:
         groups_now = case_now["groups"]
